@@ -117,7 +117,7 @@ def run_case(i, seed, tier):
         h = common.History(cfg, seed * 1000003 + i, profile)
         if i % 7 == 5:
             h.extend(nops // 2)
-            counters['reopened_histories'] = 1 if h.reopen() else 0
+            counters['reopened_histories'] = 1 if h.reopen(reuse=(i % 2 == 0)) else 0
             h.extend(nops - nops // 2)
         else:
             h.extend(nops)
